@@ -370,6 +370,14 @@ def run_case(spec):
     register_methods()
     install_stage_wrappers()
 
+    if spec.get("kind") == "predispatch":
+        out = []
+        for nw in spec["nws"]:
+            class P:
+                _max_workers = nw
+            o = ctg.HyperOptimizer(methods=["greedy"], parallel=P(), optlib="random")
+            out.append([nw, o._num_workers, o.pre_dispatch])
+        return {"predispatch": out}
     inputs = [tuple(t) for t in spec["inputs"]]
     output = tuple(spec["output"])
     size_dict = dict(spec["size_dict"])
@@ -1033,7 +1041,7 @@ def run(ctx):
     add("reg:combo-256", dict(base, minimize="combo-256"))
     add("reg:combo+reconf", dict(base, minimize="combo", opts={"reconf_opts": {}}))
 
-    for i in range(ctx.n(170, 1500)):
+    for i in range(ctx.n(170, 5000)):
         add("serial%d" % i, make_spec(rng, gen))
     # default hyper-parameter library (cmaes here): adaptive get_setting
     for i in range(ctx.n(6, 40)):
@@ -1051,7 +1059,7 @@ def run(ctx):
             sp.update(inputs=snet[0], output=snet[1], size_dict=snet[2], seed=1234 + pd)
             add("perm%d:%s" % (pd, "".join(map(str, perm))), sp)
     # scripted executor: random orders, slack (several futures done at once), stops, failures
-    for i in range(ctx.n(90, 800)):
+    for i in range(ctx.n(90, 2500)):
         n = rng.randint(2, 12)
         ranks = list(range(n))
         rng.shuffle(ranks)
@@ -1087,14 +1095,25 @@ def run(ctx):
 
     ctx.log("running %d hyper-optimizer searches in worker processes" % len(specs))
     t0 = _time.time()
-    results = run_specs(specs)
+    pd_spec = {"kind": "predispatch", "nws": list(range(1, 41)) + [rng.randint(41, 3000) for _ in range(20)]}
+    results = run_specs(specs + [pd_spec])
+    pd_obs = results.pop()
     ctx.log("runs done in %.1fs" % (_time.time() - t0))
+    if not pd_obs or "predispatch" not in pd_obs:
+        ctx.fail("could not read pre_dispatch of the parallel setter", {"obs": pd_obs}, found_input=False)
+    else:
+        rows = pd_obs["predispatch"]
+        failing = ctx.coq_cases("c08_predispatch", ["Hyper"],
+                                [("nw=%d" % nw, "pre_dispatch_of %d%%nat" % w, "%d%%nat" % pd) for nw, w, pd in rows])
+        for idx, label, val in failing:
+            ctx.fail("model and implementation disagree on pre_dispatch", {"row": rows[idx], "model_value": val},
+                     found_input=False)
 
     # ---------------------------------------------------------------- oracle + model cases
     pipe_cases, pipe_recs = [], []
     search_cases, search_recs = [], []
     argmin_cases, argmin_recs = [], []
-    max_pipe = ctx.n(700, 6000)
+    max_pipe = ctx.n(700, 20000)
     for i, (spec, obs, label) in enumerate(zip(specs, results, labels)):
         usable = judge(ctx, spec, obs, label)
         if obs is None or obs.get("hang") or "harness_exc" in obs:
